@@ -14,6 +14,10 @@ overflow guard was added; corpus/dpool/calloc_overflow.ops).  `fail=` only with 
 
 Sparse observation mode: `obs=sparse` on the constructor line suppresses the content sweep after every
 operation (a third of the histories of every focus); `observe` prints it on demand.
+
+`giant=1 phys=quiet` (scale stream): the harness allocator serves blocks of 1 GiB and more from reserved,
+never touched address space, so pages and single requests beyond 4 GiB (2^32) are exercised; those
+histories only malloc / free / pool_reset (never calloc), mostly in padded mode.
 """
 import itertools
 
@@ -195,6 +199,44 @@ class DpoolGen:
                 if i % 300 == 299:
                     ops.append("observe")
             ops += ["observe", "destroy"]
+            out.append(ops)
+        return out + mix_sparse(self.giant(rng, 8 if quick else 40), rng)
+
+    def giant(self, rng, count):
+        """(4) pages of 5-9 GiB and more, requests around and above 2^32 bytes, padded mode mostly"""
+        out = []
+        G = 2**30
+        for _ in range(count):
+            size = rng.choice([5, 6, 8, 9]) * G + rng.choice([0, 0, 8, 16, 4096])
+            fixed = rng.choice([0, 0, 1])
+            packed, ab = rng.choice([(0, 2), (0, 8), (0, 8), (0, 16), (0, 16), (0, 4096), (0, 2**32), (1, 1), (1, 8)])
+            exp = "1" if fixed else rng.choice(["1", "2", "1.5"])
+            sim = Sim(size, fixed, packed, ab, exp)
+            ops = [f"new size={size} fixed={fixed} packed={packed} ab={ab} exp={exp} giant=1 phys=quiet"]
+            # the first request: a single block of at least 4 GiB
+            first = rng.choice([2**32, 2**32 + 1, 2**32 + ab, 2**32 - 1, 2**32 + 7, 2**32 + 2**20 + 3, size - 1, size - G])
+            ops.append(f"malloc {first}"); sim.alloc(first)
+            for _ in range(rng.randint(8, 30)):
+                top = sim.sizes[-1]
+                remaining = top - sim.free
+                r = rng.random()
+                if r < 0.65:
+                    sz = rng.choice([0, 1, 5, ab, G, G + 1, 3 * G, 2**32, 2**32 + 1, 2**32 - 1, 2**32 + ab, remaining,
+                                     max(remaining - 1, 0), remaining + 1, max(remaining - ab, 0), top - 1, top, 2**63, SIZE_MAX])
+                    if len(sim.sizes) > 3 or top > 2**36:
+                        sz = min(sz, max(remaining - sim.pad(min(sz, remaining)), 0))      # no further growth
+                    ops.append(f"malloc {sz}"); sim.alloc(sz)
+                elif r < 0.8:
+                    a = rng.choice([sim.high, sim.high, sim.high % 2**32, sim.free, 0])
+                    ops.append(f"free off={a}"); sim.release_off(a)
+                elif r < 0.9 and sim.n:
+                    ops.append(f"free idx={sim.n - 1}")
+                    ops.append(f"free off={sim.high}"); sim.release_off(sim.high)
+                else:
+                    ops.append("pool_reset"); sim.reset()
+                    if rng.random() < 0.6:
+                        ops.append(f"malloc {first}"); sim.alloc(first)
+            ops.append("destroy")
             out.append(ops)
         return out
 
